@@ -330,7 +330,8 @@ def gen_registry_rs(model):
         out.append("")
 
     group("for_each_ref_type", lambda t: t["ref"] is not None and len(t["units"]) >= 1, None)
-    group("for_each_noref_type", lambda t: t["ref"] is None, None)
+    group("for_each_noref_type", lambda t: t["ref"] is None and len(t["units"]) > 1, None)
+    group("for_each_single_type", lambda t: t["ref"] is None and len(t["units"]) == 1, None)
     group("for_each_type", lambda t: True, None)
     group("for_each_main_type", lambda t: t["universe"] == "main", None)
     # operator instances
